@@ -20,7 +20,7 @@ func TestFactsAgreeWithReferenceVerifier(t *testing.T) {
 	rapid.Check(t, func(rt *rapid.T) {
 		ref := rapid.SampledFrom([]string{"kid", "jwk", "kid-xor-jwk"}).Draw(rt, "world")
 		w := testWorld(ref)
-		v := Gen(rt, GenOpts{Refs: []string{"kid", "jwk"}})
+		v := Gen(rt, GenOpts{Refs: []string{"kid", "jwk"}, JWKMeta: true, Near: true})
 		b := Build(w, v)
 		if _, err := json.Marshal(v); err != nil {
 			rt.Fatal(err)
